@@ -101,3 +101,33 @@ package lex
 
 //@ func Tables.ActionStart
 //@   ensures result == -1 - len(t.Backtrack)
+
+// ---- the array form of the symbol map (C11: generated lexers index it with the rune) ----
+
+// symOf(t, r): the DFA symbol of rune r = Target of the last segment starting at or before r.
+//@ pred mapSorted(t *Tables) = len(t.SymbolMap) >= 1 && t.SymbolMap[0].Start == 0 && forall p in 0..len(t.SymbolMap) :: forall q in p+1..len(t.SymbolMap) :: t.SymbolMap[p].Start < t.SymbolMap[q].Start
+
+//@ func Tables.LastMapEntry
+//@   requires len(t.SymbolMap) >= 1
+//@   ensures result == t.SymbolMap[len(t.SymbolMap)-1]
+
+// SymbolArr: entry r of the array is the target of the segment containing r, for every rune below
+// the start of the last segment (and below maxRune when it is given).
+//@ func Tables.SymbolArr
+//@   requires mapSorted(t) && maxRune >= 0
+//@   ensures len(t.SymbolMap) == 1 ==> len(result) == 0
+//@   ensures len(t.SymbolMap) > 1 ==> len(result) == ((maxRune != 0 && maxRune < t.SymbolMap[len(t.SymbolMap)-1].Start) ? maxRune : t.SymbolMap[len(t.SymbolMap)-1].Start)
+//@   ensures forall r in 0..len(result) :: forall k in 0..len(t.SymbolMap) :: (t.SymbolMap[k].Start <= r && (k + 1 == len(t.SymbolMap) || r < t.SymbolMap[k+1].Start)) ==> result[r] == t.SymbolMap[k].Target
+//@   loop 1:
+//@     invariant 0 <= @i && @i <= len(t.SymbolMap) && 0 <= index && index <= size && len(ret) == size && fresh(ret)
+//@     invariant size <= t.SymbolMap[len(t.SymbolMap)-1].Start
+//@     invariant @i > 0 ==> target == t.SymbolMap[@i-1].Target && index == t.SymbolMap[@i-1].Start && index < size
+//@     invariant @i == 0 ==> index == 0
+//@     invariant forall r in 0..index :: forall k in 0..len(t.SymbolMap) :: (t.SymbolMap[k].Start <= r && (k + 1 == len(t.SymbolMap) || r < t.SymbolMap[k+1].Start)) ==> ret[r] == t.SymbolMap[k].Target
+//@   loop 2:
+//@     invariant 0 <= @i1 && @i1 < len(t.SymbolMap) && 0 <= index && index <= size && len(ret) == size && fresh(ret) && e == t.SymbolMap[@i1]
+//@     invariant size <= t.SymbolMap[len(t.SymbolMap)-1].Start
+//@     invariant @i1 > 0 ==> target == t.SymbolMap[@i1-1].Target && t.SymbolMap[@i1-1].Start <= index
+//@     invariant @i1 == 0 ==> index == 0
+//@     invariant index <= e.Start || index == size
+//@     invariant forall r in 0..index :: forall k in 0..len(t.SymbolMap) :: (t.SymbolMap[k].Start <= r && (k + 1 == len(t.SymbolMap) || r < t.SymbolMap[k+1].Start)) ==> ret[r] == t.SymbolMap[k].Target
